@@ -4,12 +4,20 @@
    Everything after the first "--" goes to the key "--" unchanged; an argument
    containing "=" is named: up to two leading "-" are dropped, key = text before
    the first "=", value = text after it; the others are positional $0, $1, ... in
-   order.  A later named argument with the same key overrides an earlier one. *)
+   order.  A later named argument with the same key overrides an earlier one.
+   Mode = "full": every list of <= MaxArgs arguments of <= MaxArgLen symbols.
+   Mode = "long": long lists (<= MaxArgs, e.g. 13) whose i-th argument is either
+   positional ("a" at odd, "b" at even positions) or the named "a=b": more than ten
+   positional arguments ($10, $11, ...), named ones in between. *)
 EXTENDS Naturals, Sequences, FiniteSets, TLC, Json
-CONSTANTS MaxArgLen, MaxArgs, Emit
+CONSTANTS MaxArgLen, MaxArgs, Emit, Mode
 Sym == {"-", "eq", "a", "b"}
 Args == UNION { [1..n -> Sym] : n \in 0..MaxArgLen }
-Lists == UNION { [1..n -> Args] : n \in 0..MaxArgs }
+PosAt(i) == IF i % 2 = 1 THEN <<"a">> ELSE <<"b">>
+NamedAB == <<"a", "eq", "b">>
+Lists == IF Mode = "long"
+         THEN UNION { { f \in [1..n -> {<<"a">>, <<"b">>, NamedAB}] : \A i \in 1..n : f[i] \in {PosAt(i), NamedAB} } : n \in 0..MaxArgs }
+         ELSE UNION { [1..n -> Args] : n \in 0..MaxArgs }
 DD == <<"-", "-">>
 IdxDD(l) == IF \E i \in 1..Len(l) : l[i] = DD THEN CHOOSE i \in 1..Len(l) : l[i] = DD /\ \A j \in 1..(i-1) : l[j] # DD ELSE 0
 Before(l) == IF IdxDD(l) = 0 THEN l ELSE SubSeq(l, 1, IdxDD(l) - 1)
